@@ -92,14 +92,20 @@ BlockBody(lines, prefix, acc) ==
        IF l = <<>> THEN BlockBody(Tail(lines), prefix, acc \o <<10>>)
        ELSE IF StartsWith(l, prefix) THEN BlockBody(Tail(lines), prefix, acc \o SubSeq(l, Len(prefix) + 1, Len(l)) \o <<10>>)
        ELSE Reject                                     \* text that is neither in the block nor its terminator
-\* lines: the lines between the opening ||| and the terminator line; endWs: whitespace before the closing |||
+\* lines: the lines between the opening ||| and the terminator line; endWs: whitespace before the closing |||.
+\* Blank lines before the first text line are part of the string (one newline each); the indentation of the block
+\* is that of the first line that is not blank (go-jsonnet / C++ lexers: "process leading blank lines before
+\* calculating the indent"); a block of blank lines only has no indented first line and is an error.
+RECURSIVE LeadingBlanks(_)
+LeadingBlanks(lines) == IF lines # <<>> /\ Head(lines) = <<>> THEN 1 + LeadingBlanks(Tail(lines)) ELSE 0
 TextBlock(lines, chomp, endWs) ==
-  IF lines = <<>> THEN Reject
-  ELSE LET first == lines[1] prefix == WsPrefix(first) IN
-       IF first = <<>> THEN Unspec                     \* leading blank line: implementations differ, not decided
-       ELSE IF prefix = <<>> THEN Reject               \* first line must be indented
+  LET nb == LeadingBlanks(lines)
+      rest == SubSeq(lines, nb + 1, Len(lines)) IN
+  IF rest = <<>> THEN Reject
+  ELSE LET first == rest[1] prefix == WsPrefix(first) IN
+       IF prefix = <<>> THEN Reject                    \* first text line must be indented
        ELSE IF StartsWith(endWs, prefix) THEN Unspec   \* terminator indented like the text: not decided here
-       ELSE LET b == BlockBody(lines, prefix, <<>>) IN
+       ELSE LET b == BlockBody(rest, prefix, [i \in 1..nb |-> 10]) IN
             IF b.k # "str" THEN b
             ELSE IF chomp THEN Str(SubSeq(b.s, 1, Len(b.s) - 1)) ELSE b
 BlockLines == { <<32, 32, 97>>, <<32, 32, 32, 98>>, <<32, 99>>, <<>>, <<9, 97>>, <<32, 32, 124, 124, 124>>, <<32, 32, 92, 110>>, <<100>> }
